@@ -237,6 +237,10 @@ def classify_read(prog, chk, body, field, variant, bb, idx, node, ncmp):
         elif i != R.TERM and "rv" in n and n["rv"]["k"] == "binop" and n["rv"]["op"] in R.CMP_OPS:
             ncmp[field] += 1
             check_comparison(prog, chk, body, field, variant, b, i, n, node["lhs"][0] if "lhs" in node else None)
+        elif how == "ref":
+            # a reference to the value is taken (captured by a closure, handed to a helper): where it is compared is not
+            # visible from here
+            chk.undecided("A7.read", fkey + ":by-reference", w, f"the value of {field} is used through a reference (a closure capture or a helper's parameter); the comparison it feeds is not traced")
         else:
             chk.bad("A7.read", fkey + ":unclassified", w, f"value of {field} flows into something that is neither a comparison nor an error payload ({how})")
 
@@ -853,6 +857,11 @@ def scope_var_limit(prog, chk):
                 if lp is not None and _attrs_loop_element(body, lp[0]) == l and body.dominates(eb, lp[0]):
                     guards.append(lp)
             name = body.local_name(l)
+            if not guards and (R.place_reads(body, (".var_limit",)) or any(R.place_reads(cb_, (".var_limit",)) for cb_ in prog.bodies.values() if cb_.root == body.id)):
+                # var_limit is consulted in this function, but not in a `for .. in &L.attrs` loop the rule can read (an
+                # iterator chain, a helper): no verdict on whether every attribute passes it
+                chk.undecided("A7.scope-var-limit", f"{body.short}:{name}:redispatch", body.where(eb, et.get("line")), f"var_limit is tested in {body.short}, but not in a loop over the attributes of `{name}` that the rule can read")
+                continue
             for (b, t, c) in sinks:
                 ok = any(body.dominates(lp[0], b) and b not in lp[1] for lp in guards) and R.constructs_variant(body, body.reachable, "svgdx::errors::SvgdxError", "VarLimitError")
                 chk.ob(ok, "A7.scope-var-limit", f"{body.short}:{name}:redispatch", body.where(b, t.get("line")), f"`{name}` (attributes evaluated) is processed as an element again only after its attributes passed a var_limit test", f"{body.short} evaluates the attributes of `{name}` and then processes it as an element again without testing them against var_limit: if it is a container its (expanded) attributes become variables of its content - a group that reuses itself with v=\"$v$v\" doubles the value at every level (memory exhaustion long before the depth limit)")
